@@ -11,6 +11,14 @@ open TE TE.Index TE.Window
 
 variable {α : Type}
 
+/-- decidable equality of model outcomes (for `decide`d examples and witnesses). -/
+instance exceptDecEq {ε β : Type} [DecidableEq ε] [DecidableEq β] : DecidableEq (Except ε β) := fun a b =>
+  match a, b with
+  | .ok x, .ok y => if h : x = y then isTrue (by rw [h]) else isFalse (by intro e; cases e; exact h rfl)
+  | .error x, .error y => if h : x = y then isTrue (by rw [h]) else isFalse (by intro e; cases e; exact h rfl)
+  | .ok _, .error _ => isFalse (by intro e; cases e)
+  | .error _, .ok _ => isFalse (by intro e; cases e)
+
 /-! ### kernels -/
 
 theorem inRange_iff (n : Nat) (i : Int) : inRange n i = true ↔ 0 ≤ i ∧ i < (n : Int) := by
